@@ -2059,12 +2059,14 @@ class TLSConnection(TLSRecordLayer):
 
         #Send Certificate if we were asked for it
         if certificateRequest:
-            # if a peer doesn't advertise support for any algorithm in TLSv1.2,
-            # support for SHA1+RSA can be assumed
-            if self.version == (3, 3)\
-                and not [sig for sig in \
-                         certificateRequest.supported_signature_algs\
-                         if sig[1] == SignatureAlgorithm.rsa]:
+            # in TLS 1.2 we can answer with a certificate only if the server
+            # accepts one of the algorithms our key can sign with
+            if self.version == (3, 3) and privateKey \
+                and not [sig for sig in
+                         self._sigHashesToList(settings, privateKey,
+                                               clientCertChain)
+                         if sig in
+                         certificateRequest.supported_signature_algs]:
                 for result in self._sendError(\
                         AlertDescription.handshake_failure,
                         "Server doesn't accept any sigalgs we support: " +
